@@ -159,15 +159,13 @@ theorem assign_spec_partial (σ σ' : State) (t : Loc) (q : Path) (inv : Inv σ 
         intro B hB
         rw [hB] at hwc
         exact ⟨_, hwc⟩
-      have hself : ∀ id, parentOf t = some id → handleOf src ≠ some id := by
-        intro id hid
+      have hacyc : ∀ id c, parentOf t = some id → handleOf src = some c → ¬ Reach σ.heap c id := by
+        intro id c hid hc
         obtain ⟨f', hf'⟩ := hreach id hid
-        cases f' with
-        | zero => simp [reaches] at hf'
-        | succ f' => exact reaches_false_ne hf'
-      obtain ⟨σ2, ha, inv2, _⟩ := inv.assignV hl hlive hself
+        exact reaches_false_not_reach f' src c hf' hc
+      obtain ⟨σ2, ha, inv2, _⟩ := inv.assignV hl hlive hacyc
       rw [ha] at h; cases h
-      obtain ⟨s1, s2, s3⟩ := inv.assignV_spec hl hlive hself hreach ha
+      obtain ⟨s1, s2, s3⟩ := inv.assignV_spec hl hlive hreach ha
       exact ⟨src, h1, s1, s2, s3, inv2⟩
 
 /-- "leaves the target equal to the assigned value": after an executed `p = q`, the Var at `p` compares equal (`==`)
